@@ -490,4 +490,15 @@ example : ∃ (x : Vec ℝ 2) (A : Finset (Fin 2)), A.Nonempty ∧ Aᶜ.Nonempty
   have h0 : Real.log (∑ i ∈ ({0} : Finset (Fin 2)), Real.exp ((Vec.of (fun i : Fin 2 => if i = 0 then (0 : ℝ) else -16)) i)) = 0 := by simp
   exact ⟨_, _, hA, hAc, h0, by rw [h0] at h; exact h⟩
 
+/-- With `−∞` entries too the result does not depend on the order of the entries. -/
+theorem lse_neg_inf_perm {n : Nat} (x : Vec (Ext ℝ) (n + 1)) (hx : ∀ i, x i ≠ Ext.nan) (hfin : ∃ i a, x i = Ext.fin a)
+    (σ : Equiv.Perm (Fin (n + 1))) :
+    logSumExp (Vec.of (fun i => x (σ i))) = logSumExp x := by
+  obtain ⟨j, a, hj⟩ := hfin
+  have hx' : ∀ i, (Vec.of (fun i => x (σ i))) i ≠ Ext.nan := fun i => by simp only [Vec.of_apply]; exact hx _
+  have hfin' : ∃ i a, (Vec.of (fun i => x (σ i))) i = Ext.fin a := ⟨σ.symm j, a, by simp [hj]⟩
+  rw [(lse_neg_inf _ hx' hfin').1, (lse_neg_inf x hx ⟨j, a, hj⟩).1]
+  simp only [Vec.of_apply]
+  rw [Equiv.sum_comp σ (fun i => Ext.expR (x i))]
+
 end BFL
